@@ -253,6 +253,20 @@ def run(ctx):
     C.rule('C18-WHO-tableindex', 'every index into DATATYPES is a type/group id and every index into ELEMENTS a definition id, by provenance (ElementType.typ vs .def are both u16)')
     table_index_provenance(C, P)
     C.extra['exhaustive'] = True
+    # text -> item goes through ONE decoder: FromStr hands the bytes of its argument, unchanged, to from_bytes
+    C.rule('C18-SIB-fromstr', 'FromStr for ElementName / AttributeName / EnumItem is exactly from_bytes(input.as_bytes()): nothing else touches the text (no trimming, case folding or normalisation), so "a text that is not exactly the text of an item fails" is decided by the one hash lookup that C18-DATA-names checks')
+    for ty in ('ElementName', 'AttributeName', 'EnumItem'):
+        b = P.find('<%s as FromStr>::from_str' % ty)
+        if b is None:
+            C.anchor_missing('C18-SIB-fromstr', 'FromStr for ' + ty)
+            continue
+        cs = [(callee_of(t) or '') for pos, t in b.iter_calls()]
+        ok = len(cs) == 2 and cs[0].endswith('<impl str>::as_bytes') and cs[1].endswith('%s::from_bytes' % ty)
+        if ok:
+            t0 = [t for pos, t in b.iter_calls()][0]
+            ok = is_local_op(t0['args'][0]) and (t0['args'][0]['l'] == 1 or any((org[0] == 'param' and org[1] == 1) or (org[0] == 'place' and org[1]['l'] == 1) for org in origins(b, t0['args'][0])))
+        C.check(ok, 'C18-SIB-fromstr', '%s|from_str-is-from_bytes-of-the-unchanged-text' % ty, 'FromStr for %s does more than from_bytes(input.as_bytes()) (%s): texts that are not exactly the text of an item convert' % (ty, [c.rsplit('::', 1)[-1] for c in cs]),
+                '%s:%d' % (b.file, b.line), sample={'type': ty, 'callees': [c.rsplit('::', 1)[-1] for c in cs]})
     return C.finish('Exact decision over the literal specification data extracted from the source text: every name of the three '
                     'name enums, every version, every cell of DATATYPES/ELEMENTS/SUBELEMENTS/ATTRIBUTES/VERSION_INFO/REF_ITEMS/'
                     'CHARACTER_DATA; plus MIR-level structure rules (comparison dominates transmute; listings and lookups read the same '
